@@ -1444,6 +1444,8 @@ class Process(StateMachine, persistence.Savable, metaclass=ProcessStateMachineMe
                 # The step failed (``Running.execute`` hands back the excepted state): this overrides a pending pause or kill
                 self._set_interrupt_action(None)
 
+            # (a kill that its requester has withdrawn in the meantime is not a pending kill)
+            self._forget_withdrawn_requests()
             if self._future.cancelled() and not self._killing and not failed:
                 # The future was cancelled while the step was in flight and the kill it triggers has not been
                 # scheduled yet: honour it now rather than transitioning with a cancelled future
